@@ -371,12 +371,17 @@ package git
 //@   ensures out_reached
 //@   ensures out1 != nil ==> result1 != nil
 //@   ensures result1 == nil ==> out1 == nil
+// A failure of `git config` is taken for "not set" only when git exited with
+// status 1 (clause @only-unset; every other exit status, e.g. 128 for a value
+// it cannot parse, and every other kind of failure is an error: C10).
 // gitconfig scalars (C14): the value is what `git config --get [--bool|--int]
 // <key>` prints, for exactly the key asked for; git's "not set" (exit status 1,
 // A-GIT-CONFIG-GET) yields the default without an error; every other failure
 // is an error (C10).
 //@ func (*Repository).ConfigStringDefault
 //@   pure
+//@   call 0 ExitCode as ec
+//@   ensures @only-unset out1 != nil && result1 == nil ==> ec_reached && ec == 1
 //@   call 0 GitCommand assert len(arg_1) == 3 && arg_1[0] == "config" && arg_1[1] == "--get" && same(arg_1[2], key)
 //@   call 0 Cmd).Output as out
 //@   ensures out1 == nil && (len(out0) == 0 || out0[len(out0)-1] != 10) ==> result1 == nil && len(result0) == len(out0)
@@ -385,6 +390,8 @@ package git
 //@   ensures out1 != nil ==> same(result0, defaultValue)
 //@ func (*Repository).ConfigBoolDefault
 //@   pure
+//@   call 0 ExitCode as ec
+//@   ensures @only-unset out1 != nil && result1 == nil ==> ec_reached && ec == 1
 //@   call 0 GitCommand assert len(arg_1) == 4 && arg_1[0] == "config" && arg_1[1] == "--get" && arg_1[2] == "--bool" && same(arg_1[3], key)
 //@   call 0 Cmd).Output as out
 //@   call 0 bytes.TrimSpace assert same(arg_0, out0)
@@ -394,6 +401,8 @@ package git
 //@   ensures out1 != nil ==> result0 == defaultValue
 //@ func (*Repository).ConfigIntDefault
 //@   pure
+//@   call 0 ExitCode as ec
+//@   ensures @only-unset out1 != nil && result1 == nil ==> ec_reached && ec == 1
 //@   call 0 GitCommand assert len(arg_1) == 4 && arg_1[0] == "config" && arg_1[1] == "--get" && arg_1[2] == "--int" && same(arg_1[3], key)
 //@   call 0 Cmd).Output as out
 //@   call 0 bytes.TrimSpace assert same(arg_0, out0)
@@ -439,6 +448,9 @@ package git
 
 //@ property C06: (prefixFilter).Filter (inverse).Filter (intersection).Filter (union).Filter (allReferencesFilter).Filter (noReferencesFilter).Filter (regexpFilter).Filter (include).Combine (exclude).Combine (include).Inverted (exclude).Inverted PrefixFilter RegexpFilter lemma/last_match_base lemma/last_match_step
 //@ property C13: (*Repository).GitCommand (*Repository).IsFull NewRepositoryFromGitDir (*Repository).GitPath
+// what is traversed is what is stored (no replacement objects): C01; a group's rules combine as the selection options do: C07
+//@ property C01: (*Repository).GitCommand
+//@ property C07: (include).Combine (exclude).Combine
 //@ property C17: (*Repository).GitCommand (*Repository).GetConfig (*Repository).GitPath (*Repository).ConfigStringDefault (*Repository).ConfigBoolDefault (*Repository).ConfigIntDefault (*Repository).ResolveObject (*Repository).NewObjectIter (*Repository).NewBatchObjectIter (*Repository).NewReferenceIter
 //@ property C13: structural/exec-command-sites
 //@ property C17: structural/exec-command-sites structural/gitcommand-callers structural/no-write-apis structural/no-map-iteration structural/atomic-consistency structural/no-shared-globals structural/sent-buffers-fresh
@@ -583,5 +595,6 @@ package git
 //@ property C13: smartJoin NewRepositoryFromPath
 
 //@ property C14: (*Repository).ConfigStringDefault (*Repository).ConfigBoolDefault (*Repository).ConfigIntDefault
+//@ property C10: (*Repository).ConfigStringDefault@only-unset (*Repository).ConfigBoolDefault@only-unset (*Repository).ConfigIntDefault@only-unset
 //@ property C10: (*Repository).ResolveObject
 //@ property C01: (*Repository).ResolveObject ParseBatchHeader ParseReference
